@@ -9,7 +9,10 @@ Mirrors, statement by statement, `kitty_image_id`, `kitty_placement_id`, `kitty_
 `SurfaceIter::nth`, `Surface::is_empty`).  The payload is **not** compressed by the code (the `o=z` of the
 source comment is never written), so no compression function appears.  `Surface::hash` (FNV over height,
 width, pixels) is an uninterpreted parameter `hash`.  Rust `{}` of an unsigned integer is `decimal`.
-`Base64Encoder` is modelled by its RFC 4648 result (`rfcEncode`; the streaming carry is C14's subject).
+In this file the payload is given by its result (`payloadOf` = RFC 4648 text `rfcEncode` of all pixel bytes);
+`SurfModel/KittyStream.lean` has the literal version — a `Base64Encoder` (C14's model) fed one write of four
+bytes per pixel, then `finish` — which is what the driver runs, and `SurfProofs/Lemmas/KittyStream.lean` proves
+the two equal (`drawStreaming = draw`, no panic) from `C14_encode`.
 -/
 namespace SurfModel.Kitty
 open SurfModel.KittyB64 SurfModel.KittySpec
